@@ -20,7 +20,13 @@ def _sym_check(fn, ident, swapped, normalizer):
         if name in PROVED_NAMES or name in normalizer.comm_calls:
             return None
         c = repo.fns.get((fn.module.name, name))
-        return c.node if c is not None and c is not fn and c.cls is None else None
+        if c is not None and c is not fn and c.cls is None:
+            if not hasattr(normalizer, "used_fns"):
+                normalizer.used_fns = []
+            if c not in normalizer.used_fns:
+                normalizer.used_fns.append(c)
+            return c.node
+        return None
     a = decision_list(fn.node, ident, normalizer, resolver=resolver)
     b = decision_list(fn.node, swapped, normalizer, resolver=resolver)
     return a, b, first_difference(a, b)
@@ -58,11 +64,16 @@ def _semantic_symmetry(repo, dl_a, dl_b):
         size = 1
         for f in order:
             size *= len(doms[f])
-        if size > 60000 or not order:
+        if size > 60000:
             import os as _os
             if _os.environ.get("VERIF_DEBUG"):
                 print("semantic symmetry: domain size", size, [len(doms[f]) for f in order])
             return None
+        def _no(why, env=None):
+            import os as _os
+            if _os.environ.get("VERIF_DEBUG"):
+                print("semantic symmetry: counterexample:", why, env)
+            return False
         for combo in itertools.product(*[doms[f] for f in order]):
             env = dict(zip(order, combo))
             ia, la = ta.decide(env)
@@ -70,19 +81,19 @@ def _semantic_symmetry(repo, dl_a, dl_b):
             if la is None or lb is None:
                 if la is None and lb is None:
                     continue
-                return False
+                return _no("one side has no path", env)
             if la[0] != lb[0]:
-                return False
+                return _no("leaf kinds differ %r %r" % (la[0], lb[0]), env)
             if la[0] == "raise":
                 continue
             va, vb = la[1], lb[1]
             ea = list(va[1:]) if va[0] == "list" else [va]
             eb = list(vb[1:]) if vb[0] == "list" else [vb]
             if len(ea) != len(eb):
-                return False
+                return _no("lengths", env)
             for x, y in zip(ea, eb):
                 if canon_expr(ta, x, env) != canon_expr(tb, y, env):
-                    return False
+                    return _no("values %s | %s" % (str(canon_expr(ta, x, env))[:300], str(canon_expr(tb, y, env))[:300]), env)
         return True
     except Unknown as _e:
         import os as _os
@@ -114,6 +125,7 @@ def D1_symmetry(repo, clause, funcs=None):
          {"a1": P("a4"), "a2": P("a3"), "a3": P("a2"), "a4": P("a1"), "num_dihedrals_about_bond": P("M"),
           "bond_order": P("bo"), "bond_order_rules": P("r")}, None, "a1<->a4, a2<->a3"),
     ]
+    undecided_comm = {}
     for name, ident, swapped, comm, desc in plan:
         if funcs is not None and name not in funcs:
             continue
@@ -124,7 +136,9 @@ def D1_symmetry(repo, clause, funcs=None):
         extra = [p for p in fn.params if p not in ident]
         for p in extra:
             ident[p] = swapped[p] = P(p)
+        nz.used_fns = []
         a, b, diff = _sym_check(fn, ident, swapped, nz)
+        helpers = list(nz.used_fns)
         ok = diff is None
         sem = None
         if not ok:
@@ -138,7 +152,20 @@ def D1_symmetry(repo, clause, funcs=None):
                 nz.comm_calls[name] = comm
             obs.append(Ob("D1", clause, fn, fn.node, True, detail, construct="def %s" % name, slot="symmetric:%s" % name, positive=True))
             continue
+        if not ok and undecided_comm:
+            # a callee whose own symmetry could be neither proved nor refuted: if this function is symmetric GIVEN the callee's symmetry, its own
+            # verdict is undecided as well (the only open question is the callee's)
+            nz2 = Normalizer(dict(nz.comm_calls, **undecided_comm))
+            a2_, b2_, diff2 = _sym_check(fn, dict(ident), dict(swapped), nz2)
+            if diff2 is None or _semantic_symmetry(repo, a2_, b2_) is True:
+                obs.append(Ob("D1", clause, fn, fn.node, False, "symmetry of %s under %s holds if %s is symmetric, which could not be decided" % (
+                    name, desc, "/".join(sorted(undecided_comm))), construct="def %s" % name, slot="symmetric:%s" % name, undecided=True))
+                if comm:
+                    undecided_comm[name] = comm
+                continue
         if not ok and sem is None:
+            if comm:
+                undecided_comm[name] = comm
             i, x, y = diff
             obs.append(Ob("D1", clause, fn, fn.node, False, "symmetry of %s under %s cannot be decided: path #%d differs in spelling and the guards are outside the table language" % (name, desc, i),
                           construct="def %s" % name, slot="symmetric:%s" % name, undecided=True))
@@ -150,12 +177,12 @@ def D1_symmetry(repo, clause, funcs=None):
         else:
             i, x, y = diff
             detail = "NOT symmetric under %s: path #%d differs: %s  VERSUS  %s" % (desc, i, _short(x), _short(y))
-        obs.append(Ob("D1", clause, fn, fn.node, ok, detail, construct="def %s" % name, slot="symmetric:%s" % name, positive=True))
+        obs.append(Ob("D1", clause, fn, fn.node, ok, detail, construct="def %s" % name, slot="symmetric:%s" % name, positive=True, depends=helpers))
         # per-path obligations make the evidence concrete
         for i, (pa, pb) in enumerate(zip(a, b)):
             if pa != pb and ok is False:
                 obs.append(Ob("D1", clause, fn, fn.node, False, "path #%d: %s != %s" % (i, _short(pa), _short(pb)),
-                              construct="def %s path %d" % (name, i), slot="path:%s:%d" % (name, i), positive=True))
+                              construct="def %s path %d" % (name, i), slot="path:%s:%d" % (name, i), positive=True, depends=helpers))
     if funcs is None or "typekey" in funcs:
         obs.extend(_typekey_min_idiom(repo, clause))
     return obs
